@@ -17,7 +17,7 @@ import gevent.event
 from gevent.event import AsyncResult
 
 import slimta.queue as squeue
-from slimta.queue import Queue, QueueStorage
+from slimta.queue import Queue, QueueStorage, QueueError
 from slimta.queue.dict import DictStorage
 from slimta.envelope import Envelope
 from slimta.relay import Relay, TransientRelayError, PermanentRelayError
@@ -923,6 +923,12 @@ class Engine(object):
         for tag, g in self.enqueue_threads:
             if not g.dead:
                 self.fail('C01', 'enqueue-never-returns', 'enqueue of %s still blocked after the drain' % tag)
+                return
+        for tag, g in self.enqueue_threads:
+            e = g.exception
+            if e is not None and not isinstance(e, (QueueError, Fault, Abort, gevent.GreenletExit)) and not self.faulted:
+                # (an injected storage fault may come out of enqueue(); anything else is a crash of the call that took custody)
+                self.fail('C01', 'enqueue-raises:%s' % type(e).__name__, 'enqueue of %s raised %r' % (tag, e))
                 return
         self.note_pool_jam()
         if self.dead:
